@@ -843,8 +843,37 @@ func (w *World) finishAtCalls() error {
 			} else if fl, ok := c.Fn.Syntax().(*ast.FuncLit); ok {
 				pos = fl.Body.Rbrace - 1
 			}
+			// prefer the position of the first call to that callee: block-scoped locals are then in scope
+			if c.Fn != nil {
+				short := ac.Callee
+				if i := strings.LastIndex(short, "."); i >= 0 {
+					short = short[i+1:]
+				}
+			search:
+				for _, b := range c.Fn.Blocks {
+					for _, in := range b.Instrs {
+						ci, ok := in.(ssa.CallInstruction)
+						if !ok || !in.Pos().IsValid() {
+							continue
+						}
+						cc := ci.Common()
+						name := ""
+						if f := cc.StaticCallee(); f != nil {
+							name = f.String()
+						} else if cc.IsInvoke() {
+							name = cc.Method.Name()
+						}
+						if name == ac.Callee || strings.HasSuffix(name, "."+short) || name == short {
+							pos = in.Pos()
+							break search
+						}
+					}
+				}
+			}
 			if err := types.CheckExpr(w.fset, c.pkg.Types, pos, expr, info); err != nil {
-				return fmt.Errorf("%s: contract stale: %q does not type-check: %v", ac.Expr.Line, ac.Expr.Text, err)
+				c.Stale = fmt.Sprintf("%s: contract stale: %q does not type-check: %v", ac.Expr.Line, ac.Expr.Text, err)
+				w.stale = append(w.stale, c.Stale)
+				continue
 			}
 			ac.Expr.Expr = expr
 			ac.Expr.Info = info
